@@ -42,14 +42,14 @@ class Findings:
                     continue
                 m = re.match(r"open:\s+property=(C\d+)\s+id=(\S+)\s+(.*)", line)
                 if m:
-                    self.open[m.group(2)] = (m.group(1), m.group(3))
+                    self.open[(m.group(1), m.group(2))] = (m.group(1), m.group(3))
                     continue
                 m = re.match(r"fixed:\s+property=(C\d+)\s+(\S+)\s+(.*)", line)
                 if m:
                     self.fixed.append((m.group(1), m.group(2), m.group(3)))
 
     def is_open(self, kf_id, prop):
-        return kf_id in self.open and self.open[kf_id][0] == prop
+        return (prop, kf_id) in self.open
 
 
 class Report:
@@ -116,7 +116,7 @@ class Report:
         with open(os.path.join(EVIDENCE_DIR, self.prop + ".json"), "w") as f:
             json.dump(ev, f, indent=1, default=str)
         for kf, n in sorted(self.known.items()):
-            print("KNOWN-FINDING: property=%s %s (%d occurrences) %s" % (self.prop, kf, n, self.findings.open[kf][1]))
+            print("KNOWN-FINDING: property=%s %s (%d occurrences) %s" % (self.prop, kf, n, self.findings.open[(self.prop, kf)][1]))
         for d in self.drift[:10]:
             print("DRIFT property=%s %s" % (self.prop, d))
         seen = set()
